@@ -392,9 +392,10 @@ def c12_scenarios(tier, seed):
         nout = rnd.randint(0, 5)
         chosen = [rnd.choice(kinds[:12] if rnd.random() < 0.8 else kinds) for _ in range(nout)]
         cwd_nested = rnd.random() < 0.3
+        elsewhere = (not cwd_nested) and rnd.random() < 0.2      # run from an unrelated directory with --spokfile
         has_clean = rnd.random() < 0.15
         vars_, outs, des, alt, degenerate = [], [], [], [], False
-        cwdp = ["proj", "src"] if cwd_nested else ["proj"]
+        cwdp = ["proj", "src"] if cwd_nested else (["other"] if elsewhere else ["proj"])
         for k, kind in enumerate(chosen):
             if kind == "litfile":
                 outs.append('"out.txt"'); des.append(["proj", "out.txt"]); alt.append(["proj", "out.txt"])
@@ -460,7 +461,7 @@ def c12_scenarios(tier, seed):
         warm = rnd.random() < 0.6
         if warm:
             steps.append({"cwd": "proj", "argv": ["build"], "env": {}})
-        steps.append({"cwd": "/".join(cwdp), "argv": ["--clean"], "env": {}})
+        steps.append({"cwd": "/".join(cwdp), "argv": ["--clean"] + (["--spokfile", "@HOME@/proj/spokfile"] if elsewhere else []), "env": {}})
         scen.append({"id": len(scen) + 1, "files": files, "steps": steps})
         meta.append({"proj": ["proj"], "cwd": cwdp, "hasClean": has_clean, "designated": des, "designatedAlt": alt, "degenerate": degenerate, "cleanMarker": "cleaned",
                      "kinds": chosen, "warm": warm})
